@@ -383,7 +383,9 @@ def evaluate(env, cases, ch: Channel):
         form = drm_form(c.get("drm"))
         ch.count(f"{c['route']} {c['mode']} {'enc' if m['encrypted'] else 'clear'} systems={nsys} -> {r.status_code}")
         ch.count(f"drm form: {form}")
-        if r.status_code == 200:
+        if mo == "err":
+            ch.count(f"selection outside the modelled parser domain -> {r.status_code} (oracle only)")
+        elif r.status_code == 200:
             if m["encrypted"] and req and any("moov" in v for k, v in req.items() if k != "marlin"):
                 ch.nontrivial.add((c["route"], c["mode"], c["name"], c.get("drm"), c.get("version")))
             elif c["mode"] == "live":
